@@ -49,8 +49,10 @@ class Rust:
     def __init__(self) -> None:
         if not os.path.exists(BIN):
             build()
+        # buffered pipes (multi-megabyte replies would otherwise be read one byte per syscall); stdin is
+        # flushed explicitly after every request
         self.proc = subprocess.Popen([BIN], stdin=subprocess.PIPE, stdout=subprocess.PIPE,
-                                     bufsize=0, cwd=RUST_DIR)
+                                     bufsize=1 << 16, cwd=RUST_DIR)
 
     def call(self, req: Dict[str, Any]) -> Dict[str, Any]:
         assert self.proc.stdin is not None and self.proc.stdout is not None
